@@ -1,9 +1,9 @@
 package main
 
 import (
-	"go/types"
 	"flag"
 	"fmt"
+	"go/types"
 	"os"
 	"path/filepath"
 	"sort"
